@@ -29,8 +29,9 @@ struct H { Cls c; int id; };
 const char *OPN[] = { "appendAttrHandler", "appendFilter", "setFormatter", "appendSink", "appendPipeline",
                       "clearAttrHandlers", "clearFilters", "clearFormatters", "clearSinks", "clearPipelines", "clear",
                       "appendAttrHandler(null)", "appendFilter(null)", "setFormatter(null)", "appendSink(null)", "appendPipeline(null)",
-                      "setFormatter(the installed one again)" };
-const int NOPS = 17;
+                      "setFormatter(the installed one again)",
+                      "appendAttrHandler(the first attribute handler object again)", "appendFilter(the first filter object again)", "appendSink(the first sink object again)" };
+const int NOPS = 20;
 
 struct World {
     SortedPipeline sp;
@@ -38,6 +39,7 @@ struct World {
     std::map<const Handler *, H> ident;
     std::vector<H> ref; // reference model: always kept in class-rank order, stable
     int next = 1;
+    QSharedPointer<RA> firstA; QSharedPointer<RF> firstF; QSharedPointer<RS> firstS;   // one object registered more than once (a shared counter, one sink for two roles)
     FormatterPtr curFmt; int curFmtId = 0;   // the formatter object handed to setFormatter() last (a configuration routine that runs twice hands it in again)
 
     void refInsert(Cls c, int id)
@@ -52,13 +54,16 @@ struct World {
     {
         int id = next++;
         switch (op) {
-        case 0: { auto h = QSharedPointer<RA>::create(id, &rec); ident[h.data()] = { A, id }; sp.appendAttrHandler(h); refInsert(A, id); break; }
-        case 1: { auto h = QSharedPointer<RF>::create(id, &rec); ident[h.data()] = { F, id }; sp.appendFilter(h); refInsert(F, id); break; }
+        case 0: { auto h = QSharedPointer<RA>::create(id, &rec); ident[h.data()] = { A, id }; sp.appendAttrHandler(h); refInsert(A, id); if (!firstA) firstA = h; break; }
+        case 1: { auto h = QSharedPointer<RF>::create(id, &rec); ident[h.data()] = { F, id }; sp.appendFilter(h); refInsert(F, id); if (!firstF) firstF = h; break; }
+        case 17: { if (!firstA) { firstA = QSharedPointer<RA>::create(id, &rec); ident[firstA.data()] = { A, id }; } sp.appendAttrHandler(firstA); refInsert(A, firstA->id); break; }
+        case 18: { if (!firstF) { firstF = QSharedPointer<RF>::create(id, &rec); ident[firstF.data()] = { F, id }; } sp.appendFilter(firstF); refInsert(F, firstF->id); break; }
+        case 19: { if (!firstS) { firstS = QSharedPointer<RS>::create(id, &rec); ident[firstS.data()] = { S, id }; } sp.appendSink(firstS); refInsert(S, firstS->id); break; }
         case 2: { auto h = QSharedPointer<RM>::create(id, &rec); ident[h.data()] = { M, id }; sp.setFormatter(h); refClear(M); refInsert(M, id); curFmt = h; curFmtId = id; break; }
         case 16: {
             if (!curFmt) { auto h = QSharedPointer<RM>::create(id, &rec); ident[h.data()] = { M, id }; curFmt = h; curFmtId = id; }
             sp.setFormatter(curFmt); refClear(M); refInsert(M, curFmtId); break; }
-        case 3: { auto h = QSharedPointer<RS>::create(id, &rec); ident[h.data()] = { S, id }; sp.appendSink(h); refInsert(S, id); break; }
+        case 3: { auto h = QSharedPointer<RS>::create(id, &rec); ident[h.data()] = { S, id }; sp.appendSink(h); refInsert(S, id); if (!firstS) firstS = h; break; }
         case 4: {
             auto p = PipelinePtr::create();
             auto inner = QSharedPointer<RS>::create(id, &rec); // a sink inside the nested pipeline records when it runs
@@ -121,10 +126,10 @@ struct World {
     std::vector<std::string> expectedLog() const
     {
         std::vector<std::string> out;
-        int attrs = 0; bool fmt = false; std::string text = "hello";
+        int attrs = 0; bool fmt = false; std::string text = "hello"; std::set<int> attrIds;
         for (auto &h : ref) {
             switch (h.c) {
-            case A: out.push_back("A" + std::to_string(h.id)); attrs++; break;
+            case A: out.push_back("A" + std::to_string(h.id)); if (attrIds.insert(h.id).second) attrs++; break;   // the same handler object twice sets the same key twice
             case F: out.push_back("F" + std::to_string(h.id) + "[attrs=" + std::to_string(attrs) + (fmt ? ",fmt" : "") + "]"); break;
             case M: out.push_back("M" + std::to_string(h.id) + "[attrs=" + std::to_string(attrs) + "]"); fmt = true; text = "M" + std::to_string(h.id) + "<hello>"; break;
             case S: case P: out.push_back("S" + std::to_string(h.id) + "[" + text + ",attrs=" + std::to_string(attrs) + "]"); break;
@@ -186,7 +191,7 @@ int main(int argc, char **argv)
     int depth = vx::argInt(argc, argv, "--depth", 6);
     const char *replay = vx::argStr(argc, argv, "--replay-ops", nullptr);
     vx::Summary sum;
-    sum.bound = "call sequences <= " + std::to_string(depth) + " over 17 calls";
+    sum.bound = depth > 0 ? "call sequences <= " + std::to_string(depth) + " over 20 calls (BFS, canonical states)" : "";
 
     if (replay) { // comma separated op indices
         std::vector<int> h;
@@ -200,9 +205,27 @@ int main(int argc, char **argv)
     // masked by the merge, so every sequence over the 11 non-null calls up to --nodedup-depth is also run on its own.
     int nd = vx::argInt(argc, argv, "--nodedup-depth", 0);
     int shard = vx::argInt(argc, argv, "--shard", 0), nshards = vx::argInt(argc, argv, "--nshards", 1);
-    if (nd > 0) {
-        const int NB = 12;
-        const int NBOPS[NB] = { 0, 1, 2, 3, 4, 5, 6, 7, 8, 9, 10, 16 };
+    int ndDup = vx::argInt(argc, argv, "--nodedup-dup-depth", 0);    // the same enumeration over 15 calls (incl. re-registering the first attribute handler / filter / sink object)
+    if (vx::argInt(argc, argv, "--long", 0)) {
+        // more than 16 handlers in one pipeline (sorting routines switch algorithm with the length): pipelines of up to 40 handlers built in
+        // three orders, checked after every insertion from the 15th on
+        for (int total : { 17, 24, 33, 40 }) for (int variant = 0; variant < 3; variant++) {
+            std::vector<int> h;
+            const int cyc[4] = { 0, 1, 3, 4 }, rev[4] = { 4, 3, 1, 0 }, blk[4] = { 3, 4, 0, 1 };
+            for (int i = 0; i < total; i++) {
+                int op = variant == 0 ? cyc[i % 4] : variant == 1 ? rev[i % 4] : blk[(i * 4) / total];
+                if (i == total / 2) op = 2;
+                h.push_back(op);
+                if (i >= 14) { bool v = false; runHistory(h, &sum, &v); sum.cases++; sum.counters["long_pipeline_prefixes"]++; if (v) break; }
+            }
+        }
+    }
+    for (int pass = 0; pass < 2; pass++) {
+        int ndp = pass == 0 ? nd : ndDup;
+        if (ndp <= 0) continue;
+        const int NB = pass == 0 ? 12 : 15;
+        const int NBOPS[15] = { 0, 1, 2, 3, 4, 5, 6, 7, 8, 9, 10, 16, 17, 18, 19 };
+        const int nd = ndp;
         std::vector<int> h;
         long long top = 0;
         std::function<void()> rec = [&] {
@@ -219,11 +242,11 @@ int main(int argc, char **argv)
                 h.push_back(op); rec(); h.pop_back();
             }
         };
-        if (nd < 2 && shard != 0) { sum.print(); return 0; }
+        if (nd < 2 && shard != 0) continue;
         rec();
-        sum.bound = "all call sequences <= " + std::to_string(nd) + " over 12 calls, no state merging";
-        if (depth <= 0) { sum.print(); return 0; }
+        sum.bound += std::string(sum.bound.empty() ? "" : "; ") + "all call sequences <= " + std::to_string(nd) + " over " + std::to_string(NB) + " calls, no state merging";
     }
+    if (depth <= 0) { sum.print(); return 0; }
 
     std::set<std::string> seen;
     std::vector<std::vector<int>> frontier { {} };
